@@ -24,7 +24,7 @@ def expected_store(verb, old, off, payload):
     return payload
 
 
-def transfer(verb, n, bs, off, oldlen, c1, x1, x2, payload=None, old=None):
+def transfer(verb, n, bs, off, oldlen, c1, x1, x2, payload=None, old=None, lat=0):
     """one STOR/APPE/RETR through the real dispatcher.  n: payload length, bs: server block size, off: restart offset
     (0 = none), oldlen: -1 = file absent else length of the old content, c1: network segmentation point of the upload,
     x1/x2: sizes of the first two short reads the data socket returns"""
@@ -48,8 +48,9 @@ def transfer(verb, n, bs, off, oldlen, c1, x1, x2, payload=None, old=None):
         items = [b for b in (payload[:c1], payload[c1:]) if b]
     pre = dict(user=user, logged=True, cwd="/d", passive=True, data=(items, [x1, x2]))
     lines = ([f"REST {off}"] if off else []) + [verb.upper() + " f", "MLST f"]
-    hb.SpyPathIO.reset()
+    hb.SpyPathIO.reset(latency=lat)  # lat > 0: every backend call suspends for `lat` virtual ms (an executor / network backend)
     res = st.dispatcher_session(server, pre, lines, listeners=LS)
+    hb.SpyPathIO.latency = 0
     head, per = st.per_command_replies(res)
     k = 1 if off else 0
     codes = [c for c, sep, _ in per[k] if sep == " "] if len(per) > k else []
@@ -92,6 +93,11 @@ def transfer(verb, n, bs, off, oldlen, c1, x1, x2, payload=None, old=None):
     if not dw.closed:
         hb.KEY = "data-not-closed"
         return False
+    # the completion reply must not be on the wire before the stored file is closed (its buffered tail flushed)
+    t226 = [t for ch, t in zip(res.writer.chunks, res.writer.times) if ch.startswith(b"226")]
+    if not t226 or not hb.SpyPathIO.close_done or any(t is None or t > t226[0] for t in hb.SpyPathIO.close_done[:1]):
+        hb.KEY = "226-before-file-closed"
+        return False
     # once the completion reply was queued, a stat on the session reflects exactly the new content: MLST Size
     mlst = per[k + 1] if len(per) > k + 1 else []
     size_ok = any(("Size=%d;" % len(want)) in text for _, _, text in mlst) or any(("Size=%d;" % len(want)) in (c + s + text) for c, s, text in mlst)
@@ -99,6 +105,12 @@ def transfer(verb, n, bs, off, oldlen, c1, x1, x2, payload=None, old=None):
         hb.KEY = "stat-after-226"
         return False
     return True
+
+
+def transfer_slow(verb, n, off, oldlen, lat):
+    """the same transfer on a backend whose calls suspend (lat virtual ms each), as AsyncPathIO's do"""
+    lat = hb.conc(lat, 1, 3)
+    return transfer(verb, n, 2, off, oldlen, 1, 2, 3, lat=lat)
 
 
 SPECIAL = [0, 10, 13, 255, 65, 26, 32, 127]  # NUL, LF, CR, IAC, 'A', SUB/EOF, space, DEL
